@@ -29,6 +29,7 @@ def cfg_shift(tier, seed):
                 continue
             key = (kinds, tuple(combo))
             out.append({'order': list(combo)})
+    out += [{'order': o} for o in ([0, 0], [1, 0, 1], [2, 2, 2], [3, 0, 0], [0, 3, 0])]
     out.append({'order': [], 'dispersive2': True})
     return out, len(out), True
 
@@ -100,11 +101,14 @@ def run_shift(W, cfg):
     t1, t0 = W.real('t1'), W.real('t0')
     d1, d0 = W.real('d1', nz=True), W.real('d0')
     elems = []
+    made = {}
     for i in cfg['order']:
-        if i < 3:
-            elems.append(lt.Tilt(x=angles[i][0], y=angles[i][1]))
+        if i in made:
+            elems.append(made[i])               # the same element object met again (w * t * t): its displacement counts again
+        elif i < 3:
+            elems.append(made.setdefault(i, lt.Tilt(x=angles[i][0], y=angles[i][1])))
         else:
-            elems.append(lt.DispersiveTilt(trace=[t1, t0], dispersion=[d1, d0]))
+            elems.append(made.setdefault(i, lt.DispersiveTilt(trace=[t1, t0], dispersion=[d1, d0])))
     fld = lt.field.Field(data=1, tilt=elems)
     got = fld.shift(z=z, wavelength=lam, pixelscale=du, oversample=os, indexing='ij')
     # reference: displacements add; +x tilt -> +rows by z*tx*os/du_row ; +y tilt -> -cols by z*ty*os/du_col
@@ -352,7 +356,7 @@ def run_fit(W, cfg):
         W.ob_close(f'no residual tip [{g}]', W.sum((v - mean) * rr for rr, cc, v in res), 0, 1e-9)
         W.ob_close(f'no residual tilt [{g}]', W.sum((v - mean) * cc for rr, cc, v in res), 0, 1e-9)
 
-    if nseg > 1 and not cfg.get('intopd'):
+    if not cfg.get('intopd'):
         # a second fit after the OPD changed: every field of the product carries both fitted tilts of its segment
         ramp = rnp.array([[0.125 * (r - shp[0] // 2) * ps[0] - 0.25 * (c - shp[1] // 2) * ps[1] for c in range(shp[1])] for r in range(shp[0])])
         q.opd = q.opd + ramp * (mask.sum(axis=0) > 0)
